@@ -375,8 +375,405 @@ def gen_totals_executor(ctx):
         yield case
 
 
+def oracle_due(ctx, case, impl):
+    """pacing with the expectation taken from the PLAN (what the runner reports for each request: a returned answer carries its
+    weight also when it says success=False, a raised error carries none), not from the weight the executor stored in the sample:
+    request k+1 is due weight(k)*C/T after request k, everything is due at 0 until a positive weight has been reported"""
+    if impl["result"] in ec.NO_RUN or impl["result"].startswith("raised:"):
+        return
+    tuples = impl["tuples"]
+    due = ec.expected_due_times(case, len(tuples)) if len(tuples) <= len(case["reqs"]) else None
+    if due is None:
+        return
+    exact = bool(case.get("exact"))
+    ctx.count("oracle:due-times-from-plan")
+    for i, tup in enumerate(tuples):
+        got = Fraction(tup["sched"])
+        ok_ = got == due[i] if exact else abs(got - due[i]) <= Fraction(1, 2**46) * max(due[i], got, Fraction(1, 2**20))
+        if not ok_:
+            ws = [ec.reported_weight(q["out"])[0] for q in case["reqs"][:i]]
+            failed = any(q["out"]["k"] == "dict" and q["out"].get("success") is False for q in case["reqs"][:i])
+            ctx.fail("det-spacing-reported" + ("-failed-response" if failed else ""),
+                     f"request {i} is not scheduled weight*clients/throughput after its predecessor (weights reported by the runner: {ws})", str(due[i]), str(got))
+            break
+
+
 def run(ctx, case):
-    ec.run_exec(ctx, case, [ec.oracle_c05])
+    ec.run_exec(ctx, case, [ec.oracle_c05, oracle_due])
+
+
+# ------------------------------------------------------------------------------------------------
+# one worker, several clients: the real AsyncIoAdapter.run (schedule_for + executor per client, one sampler, one loop)
+# ------------------------------------------------------------------------------------------------
+WORKER_OP = "c05-worker-op"
+WORKER_SRC = "c05-worker-source"
+
+
+def _w_outcome(rng, unit, weights, err_p, bare):
+    r = rng.random()
+    w = rng.choice(weights)
+    if r < err_p:
+        k = rng.choice(["dict-fail", "dict-fail", "dict-fail", "api", "transport", "timeout"])
+        if k == "dict-fail":
+            return {"k": "dict", "w": w, "unit": unit, "success": False, "tput": None, "etype": rng.choice([None, "bulk"])}
+        if k == "api":
+            return {"k": "api", "status": rng.choice([400, 404, 429, 503])}
+        if k == "transport":
+            return {"k": "transport", "status": None}
+        return {"k": "timeout"}
+    if r < err_p + 0.5 * (1 - err_p):
+        return {"k": "tuple", "w": w, "unit": unit}
+    if bare and rng.random() < 0.3:
+        return {"k": "none"}
+    return {"k": "dict", "w": w, "unit": unit, "success": rng.choice([None, True]), "tput": None, "etype": None}
+
+
+def gen_worker(ctx):
+    """one schedule element (a task, or a parallel structure of up to three tasks) with 1..4 clients per task; the worker simulates
+    all of its clients or a subset (as the round-robin assignment over k cores yields); per client its own plan of service times
+    and answers (successful, `success: False` with a weight — also as the very first answers —, raised errors)"""
+    rng = ctx.rng
+    for _ in range(ctx.budget):
+        ntasks = rng.choice([1, 1, 1, 2, 2, 3])
+        tasks, plans = [], []
+        for j in range(ntasks):
+            C = rng.choice([1, 2, 2, 3, 3, 4])
+            unit = rng.choice(["ops", "ops", "docs"])
+            w0 = 1 if unit == "ops" else rng.choice([1, 2, 8, 500])
+            weights = [w0]
+            tput, interval = None, None
+            if rng.random() < 0.65:
+                k = rng.choice([-2, -1, -1, 0, 0, 1])
+                interval = Fraction(2) ** k
+                tunit = unit if rng.random() < 0.7 else "ops"
+                weff = w0 if tunit == unit else 1
+                T = Fraction(C * weff) / interval
+                how = rng.choice(["str", "str", "num"]) if tunit == "ops" else "str"
+                if how == "str":
+                    tput = {"tt": {"kind": "str", "s": (str(int(T)) if T.denominator == 1 else str(float(T))) + f" {tunit}/s"}}
+                else:
+                    tput = {"tt": {"kind": "int", "v": str(int(T))} if T.denominator == 1 else {"kind": "float", "q": ec.qs(T)}}
+                if tunit == unit and rng.random() < 0.4:
+                    weights = [w0, w0, w0 * 2]
+            sched = rng.choice([None, None, "deterministic"])
+            spec = {"warmup_it": None, "iters": None, "warmup_t": None, "period": None, "ramp_up": None, "clients": C, "tput": tput, "sched": sched,
+                    "completes_parent": False, "any_completes_parent": False}
+            if rng.random() < 0.6:
+                warm = rng.choice([None, 0, 1, 2, 3])
+                spec["warmup_it"], spec["iters"] = warm, rng.choice([1, 2, 3, 4, 5, 8])
+                n_plan = (warm or 0) + spec["iters"] + 2
+                services = [Fraction(1, 8), Fraction(1, 4), Fraction(1, 2), Fraction(3, 8), Fraction(1, 16)]
+            else:
+                wt, pt = rng.choice([(0, 1), (0, 2), (1, 1), (1, 2), (2, 2), (1, 3)])
+                spec["warmup_t"] = {"int": wt} if (wt or rng.random() < 0.5) else None
+                spec["period"] = {"int": pt}
+                if rng.random() < 0.4:
+                    spec["ramp_up"] = {"int": rng.choice([1, 2, 4])}
+                n_plan = (wt + pt) * 8 + 3
+                services = [Fraction(1, 8), Fraction(1, 4), Fraction(1, 2), Fraction(3, 8)]
+            tasks.append(spec)
+            per_client = []
+            for _c in range(C):
+                err_p = rng.choice([0, 0, 0.2, 0.5])
+                reqs = []
+                for i in range(n_plan):
+                    reqs.append({"gen": "0/1", "pre": ec.qs(rng.choice([0, 0, Fraction(1, 64), Fraction(1, 32)])), "service": ec.qs(rng.choice(services)),
+                                 "post": ec.qs(rng.choice([0, 0, Fraction(1, 64)])), "draw": "0/1", "out": _w_outcome(rng, unit, weights, err_p, unit == "ops" and weights == [1]),
+                                 "rc": None, "rp": None, "sp": None})
+                if rng.random() < 0.3:
+                    # the first answers of the client say `success: False` (bulk with item errors, polling an API that says "not yet")
+                    for i in range(min(len(reqs), rng.choice([1, 2, 3]))):
+                        reqs[i]["out"] = {"k": "dict", "w": rng.choice(weights), "unit": unit, "success": False, "tput": None, "etype": None}
+                per_client.append(reqs)
+            plans.append(per_client)
+        width = sum(t["clients"] for t in tasks)
+        if width not in (1, 2, 4, 8):
+            # all instants of a case stay dyadic: the virtual loop runs timers that are closer than its clock resolution in one go, so
+            # two clients whose wake-up times differ by one ulp (ramp-up * i / 6 …) would see each other's clock
+            for t in tasks:
+                t["ramp_up"] = None
+        r = rng.random()
+        if r < 0.55 or width == 1:
+            members = list(range(width))
+        elif r < 0.85:
+            cores = rng.choice([2, 3])
+            wk = rng.randrange(0, cores)
+            members = [c for c in range(width) if c % cores == wk] or [0]
+        else:
+            members = sorted(rng.sample(range(width), rng.randrange(1, width + 1)))
+        yield {"tasks": tasks, "plans": plans, "members": members, "parallel": ntasks > 1 or rng.random() < 0.2,
+               "t0": ec.qs(Fraction(rng.randrange(0, 4096), 8)), "epoch": ec.qs(Fraction(1_600_000_000 + rng.randrange(0, 1000)))}
+
+
+def worker_client_cases(case):
+    """per client of the element (in the order of its sub-tasks): that client's own case in the format of the one-client model"""
+    out = []
+    width = sum(t["clients"] for t in case["tasks"])
+    off = 0
+    for j, spec in enumerate(case["tasks"]):
+        for k in range(spec["clients"]):
+            out.append({"task": spec, "client": {"id": off + k, "idx": k, "gidx": off + k, "total": width}, "t0": case["t0"], "epoch": case["epoch"],
+                        "on_error": "continue", "runner_completion": False, "src_infinite": True, "src_progress": False, "cancel_at": None,
+                        "complete_at": None, "queue_cap": 16384, "reqs": case["plans"][j][k], "_task": j})
+        off += spec["clients"]
+    return out
+
+
+def run_worker_impl(case):
+    import asyncio
+    import threading
+
+    from esrally import config, metrics, track
+    from esrally.client import context
+    from esrally.driver import driver, runner
+    from esrally.track import params as tparams
+    from harness import sim_vloop
+
+    clock = sim_vloop.VClock(ec.q2f(case["t0"]), ec.q2f(case["epoch"]))
+    ccs = worker_client_cases(case)
+    plan = {(c["_task"], c["client"]["idx"]): c["reqs"] for c in ccs}
+    conn_log, closed, partitions = {}, [], []
+
+    class SimClient(context.RequestContextHolder):
+        def __init__(self, client_id):
+            self.client_id = client_id
+
+        async def request(self, service, tag):
+            self.on_request_start()
+            s = clock.now
+            if service > 0:
+                await asyncio.sleep(service)
+            self.on_request_end()
+            conn_log.setdefault(self.client_id, []).append((s, clock.now, tag))
+
+        async def close(self):
+            closed.append(self.client_id)
+
+    class Factory:
+        def __init__(self, hosts, client_options, distribution_version=None, distribution_flavor=None):
+            pass
+
+        def create_async(self, api_key=None, client_id=None):
+            return SimClient(client_id)
+
+    class Runner:
+        async def __call__(self, es, params):
+            q = plan[(params["j"], params["k"])][params["i"]]
+            pre, post = ec.q2f(q["pre"]), ec.q2f(q["post"])
+            if pre > 0:
+                await asyncio.sleep(pre)
+            await es.request(ec.q2f(q["service"]), [params["j"], params["k"], params["i"]])
+            if post > 0:
+                await asyncio.sleep(post)
+            v = ec._return_value(q["out"])
+            if isinstance(v, BaseException):
+                raise v
+            return v
+
+        def __repr__(self):
+            return "c05-worker-runner"
+
+    class Partition:
+        infinite = True
+
+        def __init__(self, j, k):
+            self.j, self.k, self.i = j, k, 0
+
+        def params(self):
+            if self.i >= len(plan[(self.j, self.k)]):
+                raise StopIteration()
+            self.i += 1
+            return {"j": self.j, "k": self.k, "i": self.i - 1}
+
+    class Source:
+        infinite = True
+
+        def __init__(self, trk, params, **kwargs):
+            self.j = params["j"]
+
+        def partition(self, partition_index, total_partitions):
+            partitions.append([self.j, partition_index, total_partitions])
+            return Partition(self.j, partition_index)
+
+        def params(self):
+            raise AssertionError("the unpartitioned source is never asked for parameters")
+
+    class Hosts:
+        all_hosts = {"default": [{"host": "127.0.0.1", "port": 9200}]}
+
+    class Ctx:
+        api_key = None
+
+    leaves = []
+    for j, spec in enumerate(case["tasks"]):
+        leaves.append(track.Task(f"task-{j}", track.Operation(f"op-{j}", WORKER_OP, params={"j": j}, param_source=WORKER_SRC),
+                                 warmup_iterations=spec["warmup_it"], iterations=spec["iters"], warmup_time_period=ec.num(spec["warmup_t"]),
+                                 time_period=ec.num(spec["period"]), ramp_up_time_period=ec.num(spec["ramp_up"]), clients=spec["clients"],
+                                 schedule=spec["sched"], params=ec.tput_params(spec.get("tput"))))
+    element = track.Parallel(leaves) if (case["parallel"] or len(leaves) > 1) else leaves[0]
+    rows = driver.Allocator([element]).allocations
+    allocs = []
+    for cid, row in enumerate(rows):
+        ent = [e for e in row if isinstance(e, driver.TaskAllocation)]
+        if cid in case["members"] and ent:
+            allocs.append(driver.ClientAllocation(cid, ent[0]))
+    cfg = config.Config()
+    for sec, key, val in (("driver", "profiling", False), ("driver", "assertions", False), ("client", "hosts", Hosts()), ("client", "options", {"default": {}})):
+        cfg.add(config.Scope.application, sec, key, val)
+    sampler = driver.Sampler(start_timestamp=clock.now)
+    out = {"result": "ok", "clients": {}, "partitions": partitions}
+    saved_factory = driver.client.EsClientFactory
+    driver.client.EsClientFactory = Factory
+    runner.register_runner(WORKER_OP, Runner(), async_runner=True)
+    tparams.register_param_source_for_name(WORKER_SRC, Source)
+    try:
+        adapter = driver.AsyncIoAdapter(cfg, track.Track(name="c05-worker-track"), allocs, sampler, threading.Event(), threading.Event(), "continue",
+                                        {a.client_id: Ctx() for a in allocs}, 0)
+        _, exc = sim_vloop.run_virtual(clock, adapter.run)
+        if exc is not None:
+            out["result"] = "raised:" + type(exc).__name__
+            out["message"] = str(exc)
+    finally:
+        driver.client.EsClientFactory = saved_factory
+        runner.remove_runner(WORKER_OP)
+        tparams._unregister_param_source_for_name(WORKER_SRC)
+    per = {}
+    for s in sampler.samples:
+        md = s.request_meta_data or {}
+        per.setdefault(s.client_id, []).append({
+            "warmup": s.sample_type == metrics.SampleType.Warmup, "client": s.client_id, "abs": s.absolute_time, "start": s.request_start,
+            "latency": s.latency, "service": s.service_time, "processing": s.processing_time, "tput": s.throughput, "ops": s.total_ops,
+            "unit": s.total_ops_unit, "period": s.time_period, "progress": s.percent_completed, "success": md.get("success"),
+            "etype": md.get("error-type"), "status": md.get("http-status"), "task": getattr(s.task, "name", None)})
+    out["samples"] = per
+    out["conn"] = conn_log
+    out["allocs"] = [[a.client_id, a.task.task.name, a.task.client_index_in_task, a.task.global_client_index, a.task.total_clients] for a in allocs]
+    out["closed"] = sorted(closed)
+    return out
+
+
+def run_worker(ctx, case):
+    impl = run_worker_impl(case)
+    ccs = worker_client_cases(case)
+    mine = [c for c in ccs if c["client"]["id"] in case["members"]]
+    wire_cases = [{k: v for k, v in c.items() if k != "_task"} for c in mine]
+    ms = {}
+    for mode in ("dbl", "exact"):
+        ms[mode] = ctx.model("worker", "run", {"clients": wire_cases, "queue_cap": 16384, "mode": mode})
+    if "r" not in ms["dbl"]:
+        ctx.diff("worker run", ms["dbl"], impl["result"])
+        return
+    exact_all = ms["dbl"].get("r") == ms["exact"].get("r")
+    if impl["result"] != "ok":
+        ctx.diff("AsyncIoAdapter.run raised", "ok", [impl["result"], impl.get("message")])
+    unknown = sorted(set(impl["conn"]) | set(impl["samples"]) - set(case["members"]) - {None})
+    unknown = [c for c in unknown if c not in case["members"]]
+    if unknown:
+        ctx.fail("worker-foreign-client", "requests or samples of clients the worker does not simulate", case["members"], unknown)
+    width = sum(t["clients"] for t in case["tasks"])
+    nontrivial = False
+    for c, mr in zip(mine, ms["dbl"]["r"]):
+        cid = c["client"]["id"]
+        spec = c["task"]
+        reqs = c["reqs"]
+        samples = impl["samples"].get(cid, [])
+        conn = impl["conn"].get(cid, [])
+        who = f"client {cid} (task {c['_task']}, client {c['client']['idx']} of {spec['clients']}; worker simulates {case['members']})"
+        # --- correspondence with the one-client model: samples, endpoint log
+        try:
+            ci = {"samples": [ec.canon_sample(s) for s in samples], "wire": [[[str(Fraction(a)), str(Fraction(b))]] for a, b, _ in conn]}
+            cm = {"samples": [ec.canon_sample(s) for s in mr["samples"]],
+                  "wire": [sorted([str(ec.frac(a)), str(ec.frac(b))] for a, b in g) for g in mr["wire"]]}
+        except Exception as e:  # noqa: BLE001 whatever the implementation produced that cannot be read is a difference
+            ctx.diff("unreadable output for " + who, None, repr(e))
+            continue
+        if mr["client"] != cid or ci != cm:
+            keys = [k for k in ci if ci[k] != cm[k]]
+            ctx.diff("worker client:" + ",".join(keys), {k: cm[k] for k in keys}, {k: ci[k] for k in keys})
+        # --- direct oracles, expectation from the case only
+        t0 = Fraction(case["t0"])
+        mine_tag = [c["_task"], c["client"]["idx"]]
+        if any(tag[:2] != mine_tag for _, _, tag in conn) or [tag[2] for _, _, tag in conn] != list(range(len(conn))):
+            ctx.fail("worker-client-mixup", f"{who}: the requests sent through its connection are not its own parameter sets in order",
+                     [mine_tag + [i] for i in range(len(conn))][:8], [tag for _, _, tag in conn][:8])
+        if any(s.get("task") != f"task-{c['_task']}" for s in samples):
+            ctx.fail("worker-client-mixup", f"{who}: samples carrying its client id belong to another task", f"task-{c['_task']}", sorted({s.get('task') for s in samples}))
+        flags = [s["warmup"] for s in samples]
+        prog = [s["progress"] for s in samples]
+        if spec["iters"] is not None:
+            warm = spec["warmup_it"] or 0
+            total = warm + spec["iters"]
+            if len(conn) != total:
+                ctx.fail("worker-iteration-count", f"{who}: executes {len(conn)} requests, warmup-iterations + iterations = {warm}+{spec['iters']}", total, len(conn))
+            if len(samples) != total:
+                ctx.fail("worker-iteration-count", f"{who}: {len(samples)} samples, warmup-iterations + iterations = {warm}+{spec['iters']}", total, len(samples))
+            if flags != [i < warm for i in range(len(samples))]:
+                ctx.fail("worker-warmup-flag", f"{who}: not exactly the first {warm} requests are flagged warm-up", [i < warm for i in range(len(samples))], flags)
+            if prog != [float(Fraction(i + 1, total)) for i in range(len(samples))] and [None if p is None else Fraction(p) for p in prog] != [
+                    Fraction(float(Fraction(i + 1, total))) for i in range(len(samples))]:
+                ctx.fail("worker-progress", f"{who}: progress is not (k+1)/total ending at 1", [str(Fraction(i + 1, total)) for i in range(total)], prog)
+            ctx.count("oracle:worker-iteration-based")
+        else:
+            warm = Fraction(ec.num(spec["warmup_t"]) or 0)
+            dur = warm + Fraction(ec.num(spec["period"]))
+            deadline = t0 + dur
+            ends = [Fraction(b) + Fraction(reqs[i]["post"]) for i, (_, b, _) in enumerate(conn[: len(reqs)])]
+            for i in range(1, len(conn)):
+                if i - 1 < len(ends) and not ends[i - 1] < deadline:
+                    ctx.fail("worker-time-stop", f"{who}: request {i} issued although warmup-time-period + time-period had elapsed after request {i - 1}", str(deadline), str(ends[i - 1]))
+                    break
+            if len(conn) < len(reqs) and (not ends or ends[-1] < deadline):
+                ctx.fail("worker-time-stop", f"{who}: stops after {len(conn)} requests before warmup-time-period + time-period has elapsed", str(deadline), str(ends[-1]) if ends else None)
+            if len(samples) != len(conn):
+                ctx.fail("worker-sample-count", f"{who}: {len(conn)} requests but {len(samples)} samples", len(conn), len(samples))
+            for i, s in enumerate(samples[: len(conn)]):
+                lo = t0 if i == 0 else ends[i - 1]
+                hi = Fraction(conn[i][0])
+                if hi - t0 < warm and not s["warmup"]:
+                    ctx.fail("worker-warmup-flag", f"{who}: request {i} issued at elapsed {hi - t0} < warmup-time-period {warm} is not warm-up", True, False)
+                if lo - t0 >= warm and s["warmup"]:
+                    ctx.fail("worker-warmup-flag", f"{who}: request {i} follows a response at elapsed {lo - t0} >= warmup-time-period {warm} but is warm-up", False, True)
+            ctx.count("oracle:worker-time-based")
+        seen_normal = False
+        for i, f in enumerate(flags):
+            if seen_normal and f:
+                ctx.fail("worker-sample-type-order", f"{who}: sample {i} is warm-up after a normal one", False, True)
+                break
+            seen_normal = seen_normal or not f
+        if any(p is None or not 0 <= p <= 1 for p in prog) or any(b < a for a, b in zip(prog, prog[1:]) if a is not None and b is not None):
+            ctx.fail("worker-progress", f"{who}: progress decreases or leaves [0,1]", None, prog)
+        # pacing and ramp-up from the plan: request k goes out at max(due(k), end of request k-1) + its client-side gap
+        ramp = Fraction(ec.num(spec["ramp_up"]) or 0)
+        start = t0 + ramp * c["client"]["gidx"] / width
+        n = min(len(conn), len(reqs))
+        due = ec.expected_due_times(c, n) if n else None
+        if due is None and ec._tput_reading_raw(c) is None:
+            due = [Fraction(0)] * n
+        if due is not None:
+            prev_end = start
+            for i in range(n):
+                want = max(t0 + due[i], prev_end) + Fraction(reqs[i]["pre"])
+                got = Fraction(conn[i][0])
+                if not (got == want if exact_all else abs(got - want) <= Fraction(1, 10**9) * max(1, want)):
+                    failed = any(q["out"]["k"] == "dict" and q["out"].get("success") is False for q in reqs[:i])
+                    ctx.fail("worker-pacing" + ("-failed-response" if failed and due[i] > 0 else ""),
+                             f"{who}: request {i} is not issued at max(task start + due time {due[i]} [weights reported: "
+                             f"{[ec.reported_weight(q['out'])[0] for q in reqs[:i]]}], end of request {i - 1}) + client-side gap", str(want), str(got))
+                    break
+                prev_end = Fraction(conn[i][1]) + Fraction(reqs[i]["post"])
+                if samples[i:i + 1] and due[i] > 0:
+                    lat = Fraction(conn[i][1]) - (t0 + due[i])
+                    if not (Fraction(samples[i]["latency"]) == lat if exact_all else abs(Fraction(samples[i]["latency"]) - lat) <= Fraction(1, 10**9) * max(1, lat)):
+                        ctx.fail("worker-latency", f"{who}: latency of request {i} is not response time - due time", str(lat), str(samples[i]["latency"]))
+                        break
+            ctx.count("oracle:worker-pacing")
+        nontrivial = nontrivial or len(samples) >= 2
+    if sorted(impl["closed"]) != sorted(case["members"]):
+        ctx.diff("connections closed after the step", sorted(case["members"]), impl["closed"])
+    ctx.count(f"worker-clients:{min(len(mine), 4)}{'+' if len(mine) > 4 else ''}")
+    ctx.sig([sorted(ms["dbl"].get("tags", [])), sorted({r_["result"] for r_ in ms["dbl"]["r"]}), exact_all, len(case["tasks"]),
+             sorted({("iter" if c["task"]["iters"] is not None else "time", c["task"]["tput"] is not None, c["task"]["ramp_up"] is not None) for c in mine})],
+            nontrivial=nontrivial and len(mine) >= 2)
 
 
 # ------------------------------------------------------------------------------------------------
@@ -743,6 +1140,7 @@ STREAMS = [
     Stream("reader_inheritance", gen_reader, run_reader, quick=6000, thorough=200000, shards=8),
     Stream("iteration_totals_schedule", gen_totals, run_totals, quick=1600, thorough=40000, shards=16),
     Stream("iteration_totals_executor", gen_totals_executor, run, quick=160, thorough=4000, shards=16),
+    Stream("worker_clients", gen_worker, run_worker, quick=480, thorough=20000, shards=16),
     Stream("allocator_ramp_up", gen_alloc_ramp, run_alloc_ramp, quick=4000, thorough=150000, shards=8),
     Stream("throughput_parse", gen_parse, run_parse, quick=12000, thorough=600000, shards=8),
     Stream("pacing_ieee", gen_pacing, run_pacing, quick=8000, thorough=400000, shards=8),
